@@ -718,8 +718,17 @@ func registerDBModels() {
 		st := cs.st
 		rr := x.rowResults[x.term(cs.recv).S]
 		if rr == nil {
-			x.assumeNote("pgx.Row.Scan on a row of unknown origin: destinations havocked")
-			x.havocAll(st, "scan")
+			x.assumeNote("pgx.Row.Scan on a row of unknown origin writes unconstrained values to its destinations only")
+			if dests := varargValues(cs.cc.Args[0]); dests != nil {
+				for _, d := range dests {
+					if pt, ok := d.Type().Underlying().(*types.Pointer); ok {
+						loc := x.derefLoc(st, x.val(cs.fr, d), pt.Elem(), cs.pos, "scan")
+						x.store(st, loc, x.freshVal(st, "scanned", pt.Elem()).T)
+					}
+				}
+			} else {
+				x.havocAll(st, "scan")
+			}
 			return &Val{T: x.sc.Fresh("scan_err", SIface), Ty: errorType}
 		}
 		dests := varargValues(cs.cc.Args[0])
@@ -966,6 +975,39 @@ func registerDBModels() {
 			x.sc.Decl("fn:unicode."+nm, fmt.Sprintf("(declare-fun unicode.%s ((_ BitVec 32)) Bool)", nm))
 			return &CV{T: App(SBool, "unicode."+nm, x.cvTerm(v, &CV{T: BVConst(0, 32)})), Ty: types.Typ[types.Bool]}, nil
 		}
+	}
+	// dynamic type tests on interface values: istype(x, "T"), unbox(x, "T")
+	contractBuiltins["istype"] = func(x *Exec, env *CEnv, n *CCall) (*CV, error) {
+		v, err := x.eval(env, n.Args[0])
+		if err != nil {
+			return nil, err
+		}
+		ts, ok := n.Args[1].(*CStr)
+		if !ok {
+			return nil, fmt.Errorf("istype: second argument must be a type name in quotes")
+		}
+		t, err := x.resolveType(env, ts.V)
+		if err != nil {
+			return nil, err
+		}
+		vt := x.cvTerm(v, nil)
+		return &CV{T: And(App(SBool, "(_ is ival)", vt), Eq(App(SInt, "itag", vt), IntConst(int64(x.typeTag(t))))), Ty: types.Typ[types.Bool]}, nil
+	}
+	contractBuiltins["unbox"] = func(x *Exec, env *CEnv, n *CCall) (*CV, error) {
+		v, err := x.eval(env, n.Args[0])
+		if err != nil {
+			return nil, err
+		}
+		ts, ok := n.Args[1].(*CStr)
+		if !ok {
+			return nil, fmt.Errorf("unbox: second argument must be a type name in quotes")
+		}
+		t, err := x.resolveType(env, ts.V)
+		if err != nil {
+			return nil, err
+		}
+		_, uf := x.boxFn(x.sortOf(t))
+		return &CV{T: App(x.sortOf(t), uf, App(SBox, "ibox", x.cvTerm(v, nil))), Ty: t}, nil
 	}
 	contractBuiltins["fetched"] = func(x *Exec, env *CEnv, n *CCall) (*CV, error) {
 		v, err := x.eval(env, n.Args[0])
